@@ -271,9 +271,86 @@ def fam_delete(n):
                   bounds=dict(pool=n, forests=len(fs)))
 
 
+def chain_world(ctx):
+    """p1 <- p2 <- p3, separate roots p4 and p5"""
+    w = World(ctx)
+    w.rc('VCPU')
+    w.provider(1)
+    w.provider(2, parent=1)
+    w.provider(3, parent=2)
+    w.provider(4)
+    w.provider(5)
+    return w
+
+
+def conc_family(name, specs):
+    """two hierarchy changes in flight together: after every interleaving at
+    transaction granularity the hierarchy is a forest with correct roots"""
+    from checks import conc, c18
+    from checks.conc import Req
+
+    def mk(spec):
+        kind, n, parent, rename = spec
+
+        def fn(ctx, w):
+            if kind == 'delete':
+                return app.call('DELETE', '/resource_providers/' + U(n),
+                                version='1.37')
+            if kind == 'post':
+                return app.call('POST', '/resource_providers', {
+                    'name': 'new%d' % n, 'uuid': U(n),
+                    'parent_provider_uuid': U(parent)}, version='1.37')
+            body = {'name': 'p%d%s' % (n, 'x' if rename else '')}
+            if parent != 'absent':
+                body['parent_provider_uuid'] = None if parent is None \
+                    else U(parent)
+            return app.call('PUT', '/resource_providers/' + U(n), body,
+                            version='1.37')
+        return Req('%s(%s->%s)' % (kind, n, parent), fn)
+
+    def path(ctx):
+        app.setup()
+        reqs = [mk(s) for s in specs]
+        pre, results, final, sched, writes = conc.run_concurrent(
+            ctx, chain_world, reqs)
+        for i, r in enumerate(results):
+            if r.status >= 500:
+                runner.violation(ctx, 'no-5xx', '%s: %d' % (reqs[i].name,
+                                                            r.status))
+        before = len(ctx.data.get('violations', []))
+        c18.forest_ok(ctx, final)
+        ctx.data['obligations'] = ctx.data.get('obligations', 0) + 1
+        if len(ctx.data.get('violations', [])) == before:
+            ctx.data['discharged'] = ctx.data.get('discharged', 0) + 1
+        return finish(ctx, ','.join(str(r.status) for r in results))
+    return Family('conc/' + name, path, bounds=dict(
+        world='chain p1<-p2<-p3 and roots p4, p5',
+        schedules='every interleaving at transaction granularity'))
+
+
 def families(tier):
     n = 3 if tier == 'quick' else 4
-    return [fam_post(n), fam_put(n), fam_delete(n)]
+    fams = [fam_post(n), fam_put(n), fam_delete(n),
+            conc_family('move+restate-parent', [('put', 2, 4, False),
+                                                ('put', 2, 1, True)]),
+            conc_family('move+move', [('put', 2, 4, False),
+                                      ('put', 2, 5, False)])]
+    if tier == 'thorough':
+        fams += [
+            conc_family('move+unparent', [('put', 2, 4, False),
+                                          ('put', 2, None, False)]),
+            conc_family('move-parent+move-child', [('put', 2, 4, False),
+                                                   ('put', 3, 5, False)]),
+            conc_family('move+rename-only', [('put', 2, 4, False),
+                                             ('put', 2, 'absent', True)]),
+            conc_family('move-under-each-other', [('put', 4, 5, False),
+                                                  ('put', 5, 4, False)]),
+            conc_family('move+delete-leaf', [('put', 2, 4, False),
+                                             ('delete', 3, None, False)]),
+            conc_family('move+post-child', [('put', 2, 4, False),
+                                            ('post', 7, 3, False)]),
+        ]
+    return fams
 
 
 if __name__ == '__main__':
